@@ -1,7 +1,7 @@
 //! Which scenarios decide which property, and with what budget.
 
 use crate::framework::{Scenario, Tier};
-use crate::{scen_agg, scen_emf, scen_global, scen_queue, scen_uow};
+use crate::{scen_agg, scen_emf, scen_global, scen_queue, scen_sample, scen_time, scen_uow};
 
 pub fn scenarios(prop: &str) -> Vec<Box<dyn Scenario>> {
     match prop {
@@ -11,6 +11,8 @@ pub fn scenarios(prop: &str) -> Vec<Box<dyn Scenario>> {
         "C06" => vec![Box::new(scen_uow::UowClose)],
         "C13" => vec![Box::new(scen_uow::UowSlots)],
         "C14" => vec![Box::new(scen_emf::EmfHistory)],
+        "C18" => vec![Box::new(scen_time::Timers)],
+        "C12" => vec![Box::new(scen_sample::FixedFraction), Box::new(scen_sample::Congress)],
         "C17" => vec![Box::new(scen_global::GlobalRouting)],
         "C16" => vec![Box::new(scen_emf::EmfWriterFaults), Box::new(scen_emf::SinkFaults)],
         "C09" => vec![Box::new(scen_queue::QueueOverflow)],
@@ -19,7 +21,7 @@ pub fn scenarios(prop: &str) -> Vec<Box<dyn Scenario>> {
     }
 }
 
-pub const CLAIMED: [&str; 10] = ["C01", "C04", "C05", "C06", "C09", "C10", "C13", "C14", "C16", "C17"];
+pub const CLAIMED: [&str; 12] = ["C01", "C04", "C05", "C06", "C09", "C10", "C12", "C13", "C14", "C16", "C17", "C18"];
 
 pub struct Budget {
     /// number of runs (quick: exactly this many; thorough: upper bound)
@@ -40,6 +42,8 @@ pub fn budget(prop: &str, tier: Tier) -> Budget {
         "C13" => (300_000, 480),
         "C14" => (20_000, 480),
         "C17" => (100_000, 600),
+        "C18" => (150_000, 480),
+        "C12" => (20_000, 480),
         "C16" => (6_000, 600),
         "C10" => (100_000, 600),
         _ => (20_000, 600),
